@@ -375,7 +375,7 @@ Ltac pre_same ps Hl Hwt L :=
   let Ha := fresh "Ha" in let Hb := fresh "Hb" in let Hta := fresh "Hta" in let Htb := fresh "Htb" in
   destruct (L _ _ _ Hwt) as (Ha & Hb & Hta & Htb); pre_start ps Hl; rewrite Hta, Htb; cbn; rewrite ?N.eqb_refl; reflexivity.
 
-Lemma node_line_pre ps id sort e cs toks :
+Lemma node_line_checks ps id sort e cs toks :
   wt e = true -> node_fits e = true ->
   match e with BVSymbol _ _ | ArraySymbol _ _ _ | ArrayConstant _ _ _ => False | _ => True end ->
   node_line id sort e cs = POk toks ->
